@@ -65,12 +65,6 @@ theorem C01_control_packets_framed :
     (∀ cs typ flags, EncOk (fun cap _ => encodeWithOffset cap cs typ flags)) :=
   EncOk_encodeWithOffset
 
-/-- The state of the entry a step refers to. -/
-def Outbound.Step.state : Outbound.Step → SendState
-  | .control _ s => s
-  | .release _ _ s => s
-  | .retained _ _ _ s => s
-
 theorem find?_some_of_any {α} (p : α → Bool) (l : List α) (h : l.any p = true) : ∃ x, l.find? p = some x ∧ p x = true := by
   cases hf : l.find? p with
   | none =>
